@@ -452,6 +452,18 @@ theorem sortValues_tie (ranker : σ → α → α → Rank × σ) (mem : Mem α)
     rw [h5 c hca (by omega), arr_setArr_other _ _ _ _ (by omega), arr_append_new]
     simp [Nat.ne_of_lt hc]
 
+/-- the exported `SortValues` as written in sorter.go is the call of `sortValues` and nothing else (no second code path
+    for large inputs, no goroutine: a `go` statement is outside the translator's subset and makes it refuse) -/
+theorem sortValuesPublic_tie (ranker : σ → α → α → Rank × σ) (values : Slice) (mem : Mem α) (w : σ) (fuel : Nat) :
+    Generated.sortValuesPublic ranker values mem w fuel = Generated.sortValues ranker values mem w fuel := by
+  unfold Generated.sortValuesPublic
+  cases Generated.sortValues ranker values mem w fuel with
+  | none => rfl
+  | some e =>
+    cases e with
+    | error p => rfl
+    | ok r => obtain ⟨m, w'⟩ := r; rfl
+
 /-! ### `ReverseValues`, `ShuffleValues` -/
 
 theorem tdiv2n (a : Nat) : Int.tdiv (a : Int) 2 = ((a / 2 : Nat) : Int) := by
